@@ -223,8 +223,14 @@ func c34BrokerSegment(batches [][]byte) ([]byte, []byte, error) {
 func c34GenSegment(t *rapid.T) ([]byte, c34Desc) {
 	var d c34Desc
 	d.Class = rapid.SampledFrom([]string{"hostile-field", "hostile-field", "hostile-field", "hostile-field", "valid-flip", "valid-flip",
-		"framed-arbitrary", "arbitrary", "short-frame", "valid"}).Draw(t, "class")
+		"framed-arbitrary", "arbitrary", "short-frame", "valid", "compressed", "compressed"}).Draw(t, "class")
 	switch d.Class {
+	case "compressed":
+		seg, _, err := c34BrokerSegment(c34CompressedBatches(t, &d))
+		if err != nil {
+			t.Fatalf("harness: BuildSegment over client blobs failed: %v", err)
+		}
+		return seg, d
 	case "short-frame":
 		// lengths around the 32-byte header / 48-byte minimum / 61-byte batch header boundaries
 		return append([]byte("KAFS"), c34Arbitrary(t, 120)...), d
@@ -304,7 +310,10 @@ func TestVF_C34_Decode(t *testing.T) {
 			t.Fatalf("decodeSegment on %d bytes (class %s field %s=%d [%s]; walker: site=%q size=%d after %d batches %d records): %s\ninput: %x",
 				len(seg), d.Class, d.Field, d.Value, d.ValClass, w.Site, w.Size, w.Batches, w.Records, v, seg)
 		}
-		if w.Reached {
+		if d.Class == "compressed" {
+			st.Class("compressed:" + d.ValClass)
+		}
+		if w.Reached || d.Class == "compressed" {
 			if st.NonTrivial(d.Class, d.Field, d.ValClass, w.Site, w.End, w.Batches, w.Records, len(seg)/16, o.Err != nil) {
 				st.Sample(map[string]any{"class": d.Class, "field": d.Field, "value": d.Value, "value_class": d.ValClass, "walk_end": w.End, "walk_site": w.Site,
 					"batches": w.Batches, "records": w.Records, "len": len(seg), "error": fmt.Sprint(o.Err), "alloc": o.Alloc, "head": c34Hex(seg[min(32, len(seg)):], 48)})
@@ -500,6 +509,13 @@ func FuzzVF_C34_Decode(f *testing.F) {
 	f.Add(c34WrapSegment(append(vfkit.SimpleBatch(0, 1, 1, "a"), vfkit.SimpleBatch(1, 2, 2, "b")...)))
 	hb := vfkit.NewBatch(0, 5, []vfkit.Record{{Key: nil, Value: []byte{}, Headers: []vfkit.RecHeader{{Key: "h", Value: nil}, {Key: "", Value: []byte("x")}}}})
 	f.Add(c34WrapSegment(hb.Encode()))
+	for _, codec := range c34Codecs {
+		for _, stream := range [][]byte{c34Compress(codec, vfkit.EncodeRecords([]vfkit.Record{{Value: []byte("v")}})), c34Bomb(codec, 4)} {
+			if len(stream) < 1<<15 {
+				f.Add(c34WrapSegment((&vfkit.Batch{Magic: 2, Attributes: c34CodecBits(codec), NumRecords: 1, RawRecords: stream}).Encode()))
+			}
+		}
+	}
 	for _, v := range c34BatchLenEdges {
 		f.Add(c34WithBatchLen(c34WrapSegment(vfkit.SimpleBatch(0, 1726000000000, 2, "edge")), uint32(v)))
 	}
